@@ -1515,18 +1515,20 @@ Section LatestClosed.
   Variable a : arch.
   Context {R : Type}.
 
+  (* a band that opens and whose tail exists and is not zero-length *)
+  Definition open_closed (b : N) : bool := head_opens a b && tail_closed a b.
+
   Lemma last_complete_evals ids : forall (k : option N -> prog R),
-    (forall b, In b ids -> head_opens a b = true) ->
-    evals pre a (last_complete ids k) (k (find (tail_closed a) ids)).
+    evals pre a (last_complete ids k) (k (find open_closed ids)).
   Proof.
-    induction ids as [|b ids IH]; intros k Ho; cbn [last_complete find]; [apply ev_refl|].
-    pose proof (Ho b (or_introl eq_refl)) as Hb.
+    induction ids as [|b ids IH]; intros k; cbn [last_complete find]; [apply ev_refl|].
     apply ev_read; [exact I|].
-    rewrite (head_opens_status pre a b), Hb.
+    rewrite (head_opens_status pre a b). unfold open_closed at 1.
+    destruct (head_opens a b); cbn [andb]; [|apply IH].
     apply ev_read; [exact I|]. rewrite reply_meta. unfold tail_closed.
     destruct (get a (PTail b)) as [x|].
-    - destruct (nonempty x); [apply ev_refl|]. apply IH. intros b' Hb'. apply Ho. right. exact Hb'.
-    - apply IH. intros b' Hb'. apply Ho. right. exact Hb'.
+    - destruct (nonempty x); [apply ev_refl|]. apply IH.
+    - apply IH.
   Qed.
 
   Lemma root_band_ids b : In b (band_ids (children_dirs a DRoot)) <-> has_dir a (DBand b) = true.
@@ -1538,27 +1540,27 @@ Section LatestClosed.
       unfold children_dirs. apply filter_In. split; [apply has_dir_In; exact Hd | reflexivity].
   Qed.
 
-  (** Without faults, when the head of every band opens, [LatestClosed] resolves to the
-      largest band id whose tail exists and is not zero-length; to nothing iff there is none *)
+  (** Without faults, [LatestClosed] resolves to the largest band id whose head opens and
+      whose tail exists and is not zero-length (a band that cannot be opened is skipped);
+      to nothing iff there is no such band *)
   Theorem latest_closed_is_newest (k : option N -> prog R) :
     has_dir a DRoot = true ->
-    (forall b, has_dir a (DBand b) = true -> head_opens a b = true) ->
     exists o,
       evals pre a (resolve LatestClosed k) (k o)
       /\ match o with
-         | Some b => has_dir a (DBand b) = true /\ tail_closed a b = true
-                     /\ forall b', has_dir a (DBand b') = true -> tail_closed a b' = true -> b' <= b
-         | None => forall b', has_dir a (DBand b') = true -> tail_closed a b' = false
+         | Some b => has_dir a (DBand b) = true /\ open_closed b = true
+                     /\ forall b', has_dir a (DBand b') = true -> open_closed b' = true -> b' <= b
+         | None => forall b', has_dir a (DBand b') = true -> open_closed b' = false
          end.
   Proof.
-    intros Hroot Ho.
+    intros Hroot.
     set (ids := rev (sorted_N (band_ids (children_dirs a DRoot)))).
     assert (Hin : forall b, In b ids <-> has_dir a (DBand b) = true).
     { intros b. unfold ids, sorted_N. rewrite <- in_rev, in_isort_N. apply root_band_ids. }
-    exists (find (tail_closed a) ids). split.
+    exists (find open_closed ids). split.
     - unfold resolve. apply ev_read; [exact I|]. rewrite reply_list, Hroot.
-      apply last_complete_evals. intros b Hb. apply Ho. apply Hin. exact Hb.
-    - destruct (find (tail_closed a) ids) as [b|] eqn:Ef.
+      apply last_complete_evals.
+    - destruct (find open_closed ids) as [b|] eqn:Ef.
       + destruct (find_some _ _ Ef) as [Hb Hc]. split; [apply Hin; exact Hb|]. split; [exact Hc|].
         intros b' Hb' Hc'.
         assert (S : StronglySorted (fun x y => N.compare y x <> Gt) ids).
@@ -2811,11 +2813,13 @@ Module FrameExamples.
     /\ l_of (outcome_of (list_prog LatestClosed keep_all) ex_crash) = l_of (outcome_of (list_prog (Specified 0) keep_all) ex_a2).
   Proof. vm_compute. repeat split; reflexivity. Qed.
 
-  (* the hypothesis "every head opens" is needed: a zero-length BANDHEAD in the newest band
-     makes LatestClosed fail although band 0 is complete (Band::open error propagated) *)
+  (* a band whose head does not open is skipped (since "fix: a leftover band without a
+     readable head ..."): with a zero-length BANDHEAD in the newest band, LatestClosed
+     resolves to band 0, which is complete *)
   Definition ex_bad_head : arch := {| dirs := dirs ex_a3; files := set_file (PHead 1) Empty (files ex_a3) |}.
-  Example ex_latest_needs_heads :
-    outcome_of (list_prog LatestClosed keep_all) ex_bad_head = Done lfail /\ complete ex_bad_head 0.
+  Example ex_latest_skips_unopenable :
+    outcome_of (list_prog LatestClosed keep_all) ex_bad_head = outcome_of (list_prog (Specified 0) keep_all) ex_bad_head
+    /\ complete ex_bad_head 0.
   Proof. vm_compute. repeat split; reflexivity. Qed.
 
   (* C14: the second backup writes block [5;7] only; the blocks [1;2], [1;2;3;4] present in
